@@ -22,6 +22,24 @@ def box(ty, payload, enc="short"):
 FTYP = box("ftyp", b"jxl \x00\x00\x00\x00jxl ")
 
 
+def stored_brotli(rng, d):
+    """a Brotli stream of uncompressed meta-blocks only that decompresses to `d` (as tools/props/c10.py)"""
+    if not d:
+        return b"\x06"
+    cuts = sorted(rng.randint(1, len(d) - 1) for _ in range(rng.choice([0, 0, 1, 2]))) if len(d) > 1 else []
+    parts, p = [], 0
+    for c in cuts + [len(d)]:
+        while c - p > 65536:
+            parts.append(d[p:p + 65536]); p += 65536
+        if c > p:
+            parts.append(d[p:c]); p = c
+    out = b""
+    for i, part in enumerate(parts):
+        n = len(part) - 1
+        out += (((n << 4) | (1 << 20)) if i == 0 else ((n << 3) | (1 << 19))).to_bytes(3, "little") + part
+    return out + b"\x03"
+
+
 def wrap(rng, cs, big_aux=False):
     """container file for codestream `cs`: signature, ftyp, aux boxes before / between / after,
     `jxlc` or `jxlp` pieces cut at arbitrary offsets, all three size encodings"""
@@ -41,6 +59,10 @@ def wrap(rng, cs, big_aux=False):
             payload = b"\x00\x00\x00\x00" + payload
         desc["aux"].append((where, ty, len(payload)))
         desc.setdefault("first", {}).setdefault(ty, payload.hex())
+        if rng.random() < 0.3:
+            # Brotli-compressed box (`brob`: inner type, then a Brotli stream of stored meta-blocks)
+            desc["brob"] = desc.get("brob", 0) + 1
+            return "brob", ty.encode() + stored_brotli(rng, payload)
         return ty, payload
     for _ in range(rng.choice([0, 1, 2])):
         ty, payload = auxbox("before")
